@@ -73,10 +73,57 @@ def _correspondence_once(ctx, rep=0):
             ctx.disagree('C12/row-vs-batch', {'entry': e.name, 'B': B, 'row': i, 'inverse': inverse},
                          {'out': yw.reshape(-1).tolist()[:6]}, {'out': y1.reshape(-1).tolist()[:6]}, 'row of the batch result differs from evaluating the row alone')
     _extras(ctx)
+    if rep == 0:
+        dist_rows(ctx)
 
 
 def search(ctx):
+    dist_rows(ctx, report=lambda what, case, match: ctx.fail(what, case, match=match))
     direct(ctx)
+
+
+def dist_rows(ctx, report=None):
+    """log-probabilities of distributions and small flows: row i of log_prob(batch) equals log_prob(row i alone) — batches that mix
+    ordinary rows with a row far in the tails (|x| ~ 15 standard deviations), both precisions; noise of flows likewise"""
+    from nflows.distributions import normal, mixture
+    from nflows.flows.base import Flow
+    from nflows.flows.autoregressive import MaskedAutoregressiveFlow
+    import nflows.transforms as T
+    gen = torch.Generator().manual_seed(ctx.seed + 1212)
+    D = 3
+    def mk():
+        torch.manual_seed(ctx.seed + 5)
+        return [('StandardNormal', normal.StandardNormal([D]), None), ('DiagonalNormal', normal.DiagonalNormal([D]), None),
+                ('ConditionalDiagonalNormal', normal.ConditionalDiagonalNormal([D]), 2 * D),
+                ('MADEMoG', mixture.MADEMoG(D, 16, 2, num_blocks=2, num_mixture_components=4, custom_initialization=True), 2),
+                ('MADEMoG/noctx', mixture.MADEMoG(D, 16, None, num_blocks=2, num_mixture_components=4, custom_initialization=True), None),
+                ('Flow(affine,MADEMoG)', Flow(T.PointwiseAffineTransform(0.5, 2.0), mixture.MADEMoG(D, 8, None, num_blocks=1, num_mixture_components=2)), None),
+                ('MaskedAutoregressiveFlow', MaskedAutoregressiveFlow(D, 8, 2, 1), None)]
+    for dt in (torch.float32, torch.float64):
+        for name, d, cw in mk():
+            d = d.to(dt); d.eval()
+            x = torch.randn(4, D, generator=gen, dtype=torch.float64).to(dt)
+            x[2] = torch.tensor([20.0, -18.0, 19.0], dtype=dt)            # one row far in the tails (finite log-density in both precisions)
+            c = None if cw is None else (0.5 * torch.randn(4, cw, generator=gen, dtype=torch.float64)).to(dt)
+            tol = dict(rtol=2e-5, atol=2e-5) if dt == torch.float32 else dict(rtol=1e-10, atol=1e-10)
+            try:
+                with torch.no_grad():
+                    whole = d.log_prob(x, context=c)
+                    rows = torch.cat([d.log_prob(x[i:i + 1], context=None if c is None else c[i:i + 1]) for i in range(4)])
+                    sub = d.log_prob(x[1:3], context=None if c is None else c[1:3])
+                ok = bool(torch.allclose(whole, rows, equal_nan=True, **tol) and torch.equal(torch.isfinite(whole), torch.isfinite(rows))
+                          and torch.allclose(sub, rows[1:3], equal_nan=True, **tol))
+                got, want = whole.tolist(), rows.tolist()
+            except Exception as ex:
+                ok, got, want = False, 'raised %r' % (ex,), None
+            case = {'class': name, 'dtype': str(dt), 'x': x.reshape(-1).tolist(), 'rows': 4}
+            if report is None:
+                ctx.case(key=('dist-rows', name, str(dt)), branch='dist-rows/%s' % ('f32' if dt == torch.float32 else 'f64'), nontrivial=True, n=4)
+                if not ok:
+                    ctx.disagree('C12/dist-rows', case, got, want, 'log_prob of a batch differs from log_prob of its rows evaluated alone')
+            elif not ok:
+                report('log_prob(batch) of %s (%s) differs from its rows evaluated alone: %s vs %s' % (name, dt, got, want), case,
+                       {'class': name.split('/')[0].split('(')[0], 'symptom': 'row-dependence', 'dtype': str(dt)})
 
 
 def _extras(ctx):
